@@ -17,6 +17,7 @@
 (*   Arc  Arc<T>            Off  OffsetArc<T>      Uni  ArcUnion<A,B>      *)
 (*   Unq  UniqueArc<T>      Raw  *const T leaked by into_raw / RefCnt      *)
 (*   Dyn  Arc<dyn Trait>    RawDyn *const dyn Trait                        *)
+(*   UnqDyn UniqueArc<dyn Trait>   BorDyn ArcBorrow<dyn Trait> (unsize)     *)
 (*   Bor  ArcBorrow<T> (also the arms of ArcUnionBorrow)   -- not owning   *)
 (*   TArc / TOff  the &Arc<T> / &OffsetArc<T> lent to a with_arc-style     *)
 (*               callback                                   -- not owning  *)
@@ -45,8 +46,8 @@ vars == <<blk, hnd, frames, res, hist, aborted>>
 Slots  == 1..NSlots
 Blocks == 1..NBlocks
 
-OwnKinds   == {"Arc", "Off", "Uni", "Unq", "Raw", "RawDyn", "Dyn"}
-LendKinds  == {"Bor", "TArc", "TOff"}
+OwnKinds   == {"Arc", "Off", "Uni", "Unq", "Raw", "RawDyn", "Dyn", "UnqDyn"}
+LendKinds  == {"Bor", "BorDyn", "TArc", "TOff"}
 Kinds      == OwnKinds \cup LendKinds
 Modulus    == 2 ^ CountBits
 MaxRefcount == 2 ^ (CountBits - 1) - 1        \* isize::MAX of a W-bit machine
@@ -92,6 +93,7 @@ MintLent(H, d, k, b, l) == [H EXCEPT ![d] = [k |-> k, b |-> b, ln |-> l, tf |-> 
 -----------------------------------------------------------------------------
 (* Constructors: Arc::new, Arc::from(T), Arc::from(Box<T>), Default, UniqueArc::new *)
 
+\* "default": Arc::default(); "from": Arc::from(T); "box"/"boxB": Arc::from(Box<T>)
 HowKind(how) == IF how \in {"unique", "uniqueB"} THEN "Unq" ELSE "Arc"
 HowTy(how)   == IF how \in {"newB", "uniqueB", "boxB"} THEN "B" ELSE "A"
 
@@ -136,7 +138,7 @@ CloneArc(s, d) ==
 (* Release of a handle *)
 
 Drop(s) ==
-    /\ On("Drop") /\ hnd[s].k \in (OwnKinds \ {"Raw", "RawDyn"}) \cup {"Bor"}
+    /\ On("Drop") /\ hnd[s].k \in (OwnKinds \ {"Raw", "RawDyn"}) \cup {"Bor", "BorDyn"}
     /\ ~Locked(s)
     /\ blk' = IF Owns(s) THEN Release(blk, hnd[s].b) ELSE blk
     /\ hnd' = [hnd EXCEPT ![s] = NoH]
@@ -171,7 +173,10 @@ ConvTable == {
     <<"Unsize",       "Arc",    "Dyn",    "AB">>,   \* unsize::CoerceUnsize
     <<"IntoRawDyn",   "Dyn",    "RawDyn", "AB">>,   \* Arc::<dyn _>::into_raw
     <<"FromRawDyn",   "RawDyn", "Dyn",    "AB">>,   \* Arc::<dyn _>::from_raw
-    <<"CastDyn",      "Raw",    "RawDyn", "AB">> }  \* ptr as *const dyn _
+    <<"CastDyn",      "Raw",    "RawDyn", "AB">>,   \* ptr as *const dyn _
+    <<"UnsizeUnq",    "Unq",    "UnqDyn", "AB">>,   \* unsize::CoerceUnsize for UniqueArc
+    <<"ShareableDyn", "UnqDyn", "Dyn",    "AB">>,   \* UniqueArc::<dyn _>::shareable
+    <<"UnsizeBor",    "Bor",    "BorDyn", "AB">> }  \* unsize::CoerceUnsize for ArcBorrow
 
 TyOK(b, tys) == tys = "AB" \/ blk[b].ty = tys
 
@@ -275,7 +280,7 @@ GetMut(s, api) ==
 
 \* DerefMut of a UniqueArc
 UqWrite(s) ==
-    /\ On("UqWrite") /\ hnd[s].k = "Unq" /\ ~Locked(s)
+    /\ On("UqWrite") /\ hnd[s].k \in {"Unq", "UnqDyn"} /\ ~Locked(s)
     /\ blk' = [blk EXCEPT ![hnd[s].b].val = FreshVal]
     /\ res' = [NoRes EXCEPT !.op = "UqWrite", !.s = s, !.seen = blk[hnd[s].b].val]
     /\ Rec(<<"UqWrite", s, 0, "", FreshVal>>)
@@ -422,7 +427,7 @@ DestroyedOnce ==
 
 \* C03: a UniqueArc is the only owner of its block
 UniqueIsSole ==
-    \A s \in Slots : hnd[s].k = "Unq" => Owners(hnd[s].b) = 1 /\ blk[hnd[s].b].rc = 1
+    \A s \in Slots : hnd[s].k \in {"Unq", "UnqDyn"} => Owners(hnd[s].b) = 1 /\ blk[hnd[s].b].rc = 1
 
 \* borrows point at their lender's block, transients belong to an open frame
 LendersOK ==
